@@ -110,7 +110,7 @@ func cmdC01(r *RNG, n int, e *Emitter, args []string) {
 }
 
 func emitC01(e *Emitter, idx string, s, c clip.Paths64, ct clip.ClipType, fr clip.FillRule, variant int, info GenInfo) {
-	takeDiscards() // start from a clean event log
+	clearEvents()
 	s0, c0 := clonePaths(s), clonePaths(c)
 	var sol clip.Paths64
 	var ok bool
